@@ -23,7 +23,7 @@ theorem safe_stepC_cfg {s s' : St} (h : stepC s = some s') : s'.cfg = s.cfg := b
   all_goals (first
     | (simp at h; done)
     | (simp only [Option.some.injEq] at h; subst h
-       first | rfl | simp [toNextCall_cfg, afterResults_cfg, afterEnter_cfg, setWorker]))
+       first | rfl | simp [toNextCall_cfg, afterResults_cfg, afterEnter_cfg, afterBatch_cfg, setWorker]))
 
 theorem safe_step_cfg {s s' : St} {t : Tid} (h : step s t = some s') : s'.cfg = s.cfg := by
   cases t with
